@@ -20,6 +20,15 @@ man = json.load(open(VERIF + '/MANIFEST.json'))
 props = [c['property_id'] for c in man['checks']]
 if args.props:
     props = args.props.split(',')
+# one snapshot of the repository and of /verif for the whole run, so that both can be edited meanwhile
+HEAD = subprocess.run(['git', '-C', REPO, 'rev-parse', '--short', 'HEAD'], capture_output=True, text=True).stdout.strip()
+SNAP = tempfile.mkdtemp(prefix='vsd-snap-')
+subprocess.run(['rsync', '-a', '--exclude', '.git', REPO + '/', SNAP + '/repo/'], check=True)
+subprocess.run(['rsync', '-a', '--exclude', '.git', '--exclude', 'out', '--exclude', 'replays', '--exclude', 'seeded', '--exclude', '.cache', VERIF + '/', SNAP + '/verif/'], check=True)
+REPO = SNAP + '/repo'
+RUNV = SNAP + '/verif'
+os.makedirs(VERIF + '/.cache', exist_ok=True)
+os.symlink(VERIF + '/.cache', RUNV + '/.cache')  # proofs are keyed by the query text: sharing the cache is safe and saves most of the time
 dirs = sorted(glob.glob(VERIF + '/seeded/*/')) if not args.seeds else [VERIF + '/seeded/%s/' % a for a in args.seeds]
 
 
@@ -33,8 +42,8 @@ def one(d):
             return name, None, 'PATCH DOES NOT APPLY ' + (r.stdout + r.stderr)[:300]
         flagged = {}
         for p in props:
-            out = subprocess.run([VERIF + '/bin/vcheck', 'check', '--property', p, '--tier', 'quick', '--no-evidence', '--discard-queries',
-                                  '--repo', scratch, '--verif', VERIF], capture_output=True, text=True, cwd=VERIF)
+            out = subprocess.run([RUNV + '/bin/vcheck', 'check', '--property', p, '--tier', 'quick', '--no-evidence', '--discard-queries',
+                                  '--repo', scratch, '--verif', RUNV], capture_output=True, text=True, cwd=RUNV)
             viol = [l for l in out.stdout.split('\n') if l.startswith('VIOLATION')]
             if out.returncode == 1:
                 items = []
@@ -63,5 +72,6 @@ with concurrent.futures.ThreadPoolExecutor(max_workers=args.jobs) as ex:
         for p, v in sorted(flagged.items()):
             for x in v[:6]:
                 print('    ', p, x)
-        head = subprocess.run(['git', '-C', REPO, 'rev-parse', '--short', 'HEAD'], capture_output=True, text=True).stdout.strip()
+        head = HEAD
         json.dump({'repo_commit': head, 'properties_checked': props, 'flagged': flagged}, open(VERIF + '/seeded/' + name + '/detection.json', 'w'), indent=1)
+shutil.rmtree(SNAP, ignore_errors=True)
